@@ -111,6 +111,17 @@ func VH_H_SearchPromises() {
 	s, k := vhServer()
 	s.searchPromises(vx.GinContext("GET"))
 	vhCheck(k, t_api.SearchPromises)
+	if k.calls == 1 {
+		if q, _ := vx.GinBound("Query", 0).(*searchPromisesParams); q != nil {
+			vx.Accepts(q.Limit == nil && q.Cursor == nil && q.State == nil, "C15:http-accepts-search-without-limit-or-state")
+			vx.Accepts(q.Limit != nil && *q.Limit == 100, "C15:http-accepts-search-limit-100")
+			vx.Accepts(q.Limit != nil && *q.Limit == 1, "C15:http-accepts-search-limit-1")
+			vx.Accepts(q.State != nil && *q.State == "pending", "C15:http-accepts-search-state-pending")
+			vx.Accepts(q.State != nil && *q.State == "resolved", "C15:http-accepts-search-state-resolved")
+			vx.Accepts(q.State != nil && *q.State == "rejected", "C15:http-accepts-search-state-rejected")
+			vx.Accepts(q.Cursor != nil && q.Limit == nil, "C15:http-accepts-search-by-cursor-alone")
+		}
+	}
 	if k.calls == 1 && k.err == nil && k.res.SearchPromises.Status.IsSuccessful() {
 		body, _ := vx.HttpBody(0).(gin.H)
 		cur, okc := body["cursor"].(*t_api.Cursor[t_api.SearchPromisesRequest])
@@ -234,6 +245,13 @@ func VH_H_SearchSchedules() {
 	s, k := vhServer()
 	s.searchSchedules(vx.GinContext("GET"))
 	vhCheck(k, t_api.SearchSchedules)
+	if k.calls == 1 {
+		if q, _ := vx.GinBound("Query", 0).(*searchSchedulesParams); q != nil {
+			vx.Accepts(q.Limit == nil && q.Cursor == nil, "C15:http-accepts-search-without-limit")
+			vx.Accepts(q.Limit != nil && *q.Limit == 100, "C15:http-accepts-search-limit-100")
+			vx.Accepts(q.Cursor != nil && q.Limit == nil, "C15:http-accepts-search-by-cursor-alone")
+		}
+	}
 	if k.calls == 1 && k.err == nil && k.res.SearchSchedules.Status.IsSuccessful() {
 		body, _ := vx.HttpBody(0).(gin.H)
 		cur, okc := body["cursor"].(*t_api.Cursor[t_api.SearchSchedulesRequest])
